@@ -48,9 +48,9 @@ SEEDS = [
  ('C06-2', '/tmp/wt_C06/_out/2', 'C06', 'a closure parameter that shadows a bound variable together with an EMPTY set / array / map (shadowing test moved into the per-element binding)',
   {'C06': 'UNDECIDED (exit 2): the change moves the shadowing test into a new helper function (bind_param) for which the unit has no contract: the front end rejects the unit. Deleting the shadowing test in place is a VIOLATION (Expression::evaluate call-pre no_shadow, witness closure_shadowing)', 'history': 'at first evaluate_with_closure was assumed (slice patterns); now under contract via R21 / A4'}),
  ('C10-1', '/tmp/wt_C10/_out/1', 'C10', 'a run that hits a budget (iterations not accumulated on the early-return paths), then a retry with authorize / query',
-  {'C10': 'UNDECIDED (exit 2): the mutation restructures the `let res = loop { break .. }` shape the loop contract is attached to (lost anchor); NOT detected'}),
+  {'C10': 'UNDECIDED (exit 2): the mutation restructures the `let res = loop { break .. }` shape the loop contract is attached to (lost anchor)', 'history': 'rebased on HEAD cb1e0aa (3-way apply, clean) and confirmed again'}),
  ('C10-2', '/tmp/wt_C10/_out/2', 'C10', 'a slow but successful check in a block >= 1 (clock read only after a non-matching query)',
-  {'C10': 'NOT detected (exit 0): wall-clock time is an uninterpreted input of the contracts (listed under not_covered); patch no longer applies after fix 09cf9d5'}),
+  {'C10': 'VIOLATION token::authorizer::Authorizer::authorize_inner::loop7.clock (clock reads != evaluations at the break of the block-check alternatives loop)', 'history': 'first NOT detected (time was an uninterpreted input with no accounting); the original patch stopped applying after fix 09cf9d5 and was rebased by hand (patch.orig.diff keeps the original); caught since ghost counters tie every evaluation to a clock read'}),
  ('C04-1', '/tmp/wt_C04/_out/1', 'C04', 'a `check all` whose body matches nothing in its scoped world (check_match_all returns true vacuously)',
   {'C04': 'UNDECIDED (exit 2): the change removes the local `found` that the loop invariant of Rule::check_match_all names; the same defect written in place (`Ok(found)` -> `Ok(true)`) is a canary of unit engine and is rejected by check_match_all::ensures.decision', 'history': 'first run NOT detected (exit 0, check_match_all was inside the engine oracle); unit engine now puts find_match / check_match_all / query_match* under contract'}),
  ('C04-2', '/tmp/wt_C04/_out/2', 'C04', 'an authorizer-level scope (AuthorizerBuilder::scope) and a policy without its own `trusting` annotation',
